@@ -192,6 +192,37 @@ def _decode_mutant(state, p, exc):
     return (2 if state == 2 else 0, _PATTERNS[0], False)
 
 
+def h_nonholding(n0: int, n1: int, s00: int, s01: int, s02: int, s10: int, s11: int, s12: int) -> bool:
+    """
+    pre: 0 <= n0 <= 3 and 0 <= n1 <= 3
+    pre: 0 <= s00 <= 2 and 0 <= s01 <= 2 and 0 <= s02 <= 2 and 0 <= s10 <= 2 and 0 <= s11 <= 2 and 0 <= s12 <= 2
+    post: _
+    """
+    # the filtering pass of the base generator: after the verification run, exactly the assertions that neither failed
+    # (status 1) nor raised (status 2) stay on their statements, in their order
+    from pynguin.assertion.assertion_trace import AssertionVerificationTrace
+
+    status = [[s00, s01, s02][:n0], [s10, s11, s12][:n1]]
+    pool = [[ass.ObjectAssertion("var_0", 10 * i + j) for j in range(3)] for i in range(2)]
+    stmts = [Statement(_NODE, assertions=list(pool[i][:len(status[i])])) for i in range(2)]
+    trace = AssertionVerificationTrace()
+    for i in range(2):
+        for j, st in enumerate(status[i]):
+            if st == 1:
+                trace.failed[i].add(j)
+            elif st == 2:
+                trace.error[i].add(j)
+    result = ExecutionResult()
+    result.assertion_verification_trace = trace
+    ag.AssertionGenerator._AssertionGenerator__remove_non_holding_assertions(_Test(stmts), result)  # noqa: SLF001
+    ok = True
+    for i in range(2):
+        want = [pool[i][j] for j, st in enumerate(status[i]) if st == 0]
+        got = list(stmts[i].assertions)
+        ok = ok and len(got) == len(want) and all(g is w for g, w in zip(got, want))
+    return reach(ok)
+
+
 def h_pipeline(minimize: bool, exc_stmt: bool, cut: bool, created: int,
                s0: int, p0: int, e0: bool, s1: int, p1: int, s2: int, p2: int) -> bool:
     """
@@ -338,7 +369,7 @@ META = {
     "note": "Trusts CPython 3.12.1, CrossHair's models and z3.  The clause 'every assertion left on a test case holds when "
             "re-executed on the unmutated module' needs real executions and is outside this check; executing tests on "
             "mutants is stubbed by a symbolic outcome matrix, statistics reporting by a recorder.",
-    "functions": ["pynguin.assertion.assertiongenerator._select_minimal_assertions", "_MutationMetrics.get_score",
+    "functions": ["AssertionGenerator.__remove_non_holding_assertions", "pynguin.assertion.assertiongenerator._select_minimal_assertions", "_MutationMetrics.get_score",
                   "_MutationSummary.get_killed/get_timeout/get_metrics",
                   "MutationAnalysisAssertionGenerator._handle_add_assertions", "._abort_after_first_timeout",
                   ".__compute_mutation_summary", ".__report_mutation_summary", ".__remove_non_relevant_assertions",
@@ -366,6 +397,7 @@ def obligations(tier: str):
     T = 150 if q else 900
     obs = [
         Chx("score", h_score, timeout=T),
+        Chx("nonholding", h_nonholding, timeout=T, split={"n0": [0, 1, 2, 3]}),
         Chx("select_k012", h_select, timeout=T, fix={"nm": 4}, split={"nk": [0, 1, 2]}),
         Chx("pipeline_m01", h_pipeline, timeout=T, split={"created": [0, 1]}),
     ]
